@@ -13,16 +13,19 @@ import (
 // Scenario is one closed configuration of a harness: a driver body plus its
 // oracle, explored exhaustively up to Bound deviations.
 type Scenario struct {
-	Name     string
-	Body     func()
-	Post     func(o *Outcome)
-	Setup    func() // driver context, before the scenario's first execution
-	Bound    int
-	Memo     bool
-	Delay    bool
-	Horizon  time.Duration
-	MaxSteps uint64
-	Weight   int // share of the time budget (default 1)
+	Name    string
+	Body    func()
+	Post    func(o *Outcome)
+	Setup   func() // driver context, before the scenario's first execution
+	Bound   int
+	Memo    bool
+	Delay   bool
+	Horizon time.Duration
+	// EarlyWindow bounds how far ahead an early clock advance (a deviation: "the
+	// timer lands before this thread's next step") may reach. Default 2 s.
+	EarlyWindow time.Duration
+	MaxSteps    uint64
+	Weight      int // share of the time budget (default 1)
 }
 
 type scenarioReport struct {
@@ -104,7 +107,10 @@ func newExplorer(sc Scenario) *Explorer {
 	if sc.MaxSteps == 0 {
 		sc.MaxSteps = 20000
 	}
-	return &Explorer{Name: sc.Name, Delay: sc.Delay, UseMemo: sc.Memo, MaxSteps: sc.MaxSteps, Horizon: h, Body: sc.Body, Post: sc.Post}
+	if sc.EarlyWindow == 0 {
+		sc.EarlyWindow = 2 * time.Second
+	}
+	return &Explorer{EarlyWindow: int64(sc.EarlyWindow), Name: sc.Name, Delay: sc.Delay, UseMemo: sc.Memo, MaxSteps: sc.MaxSteps, Horizon: h, Body: sc.Body, Post: sc.Post}
 }
 
 func runScenario(sc Scenario, deadline time.Time, si, sn int) scenarioReport {
